@@ -13,3 +13,17 @@ func VerifApiRewriteDescriptionFile(filename string, desc *Description) error {
 func VerifApiReadDescription(name string) (*Description, error) {
 	return readDescription(name, false)
 }
+
+// VerifApiForgetGroups empties the in-memory group table (start of a case of
+// engine `api`: op `live` makes groups live with group.Add).
+func VerifApiForgetGroups() {
+	groups.mu.Lock()
+	groups.groups = nil
+	groups.mu.Unlock()
+}
+
+// VerifApiDescTag is the entity tag that GetSanitisedDescription would serve
+// for a description (also for a subgroup's, which it refuses to serve).
+func VerifApiDescTag(d *Description) string {
+	return makeETag(d.fileSize, d.modTime)
+}
